@@ -3,7 +3,14 @@
 usage: tools/saveseeds.py <seed_out dir> <verify log>..."""
 import json, os, re, shutil, subprocess, sys
 src = sys.argv[1]
-logs = "".join(open(f).read() for f in sys.argv[2:])
+REN = {}
+args = sys.argv[2:]
+if args and args[0].startswith("--rename="):
+    for kv in args[0][9:].split(","):
+        k, v = kv.split(":")
+        REN[k] = v
+    args = args[1:]
+logs = "".join(open(f).read() for f in args)
 # verification results parsed from the logs written by tools/seedcheck.sh ... verify
 verified = {}
 for m in re.finditer(r"^######## (C\d+)/([ab])\n(.*?)(?=^######## |\Z)", logs, re.S | re.M):
@@ -25,7 +32,7 @@ for prop in sorted(os.listdir(src)):
         if not ver or ver["demo_exit_unchanged_tree"] != 0 or ver["demo_exit_patched_tree"] == 0:
             print("SKIP (not verified)", prop, v, ver)
             continue
-        dst = os.path.join(out_root, prop + v)
+        dst = os.path.join(out_root, prop + REN.get(v, v))
         shutil.rmtree(dst, ignore_errors=True)
         shutil.copytree(d, dst)
         meta = json.load(open(os.path.join(dst, "meta.json")))
@@ -34,11 +41,16 @@ for prop in sorted(os.listdir(src)):
         rules = sorted(set(re.findall(r"^  \S+ (R\w+) ", r.stdout, re.M)))
         first = [l.strip()[:300] for l in r.stdout.splitlines() if l.startswith("  ")][:3]
         meta.update({
-            "property": prop, "variant": v,
+            "property": prop, "variant": REN.get(v, v),
             "verified_by_me": dict(ver, how="tools/seedcheck.sh <dir> verify: demo copied into a scratch worktree of /repo HEAD, run on the unchanged tree (must pass), patch applied with git apply, demo re-run (must fail), demo removed, go build ./... and go test -vet=off -count=1 ./memdb ./resp ./server ./util ./raftexample on the patched tree"),
             "caught_by_checks": fired, "caught_by_rules": rules, "first_reports": first,
         })
         json.dump(meta, open(os.path.join(dst, "meta.json"), "w"), indent=1)
-        summary.append((prop + v, fired, rules))
-        print(prop + v, fired, rules)
-json.dump([{"seed": s, "fired": f, "rules": r} for s, f, r in summary], open(os.path.join(out_root, "SUMMARY.json"), "w"), indent=1)
+        summary.append((prop + REN.get(v, v), fired, rules))
+        print(prop + REN.get(v, v), fired, rules)
+sf = os.path.join(out_root, "SUMMARY.json")
+old = json.load(open(sf)) if os.path.exists(sf) else []
+new = {e["seed"]: e for e in old}
+for s_, f, r in summary:
+    new[s_] = {"seed": s_, "fired": f, "rules": r}
+json.dump([new[k] for k in sorted(new)], open(sf, "w"), indent=1)
